@@ -1,3 +1,135 @@
 // Kani harnesses mounted into crates/rip-workspace/src/patch.rs (cfg(kani) only).
 #![allow(unused_imports, dead_code)]
 use super::*;
+
+/// Patch constructor for harnesses of lib.rs (the `ops` field is private to this module).
+pub fn kani_patch(ops: Vec<PatchOp>) -> Patch {
+    Patch { ops }
+}
+
+fn alias1(p: *mut u8) -> String {
+    unsafe { String::from_raw_parts(p, 1, 0) }
+}
+
+// C12(a) kernel: the hunk context search is cursor-forward and takes the FIRST match at or after the cursor.
+// Haystack of N one-byte lines and needle of M one-byte lines with symbolic bytes over {a,b}; cursor symbolic.
+macro_rules! c12_find {
+    ($name:ident, $n:expr, $m:expr) => {
+        #[kani::proof]
+        #[kani::unwind(8)]
+        fn $name() {
+            let mut hb: [u8; $n] = kani::any();
+            let mut nb: [u8; $m] = kani::any();
+            let mut i = 0;
+            while i < $n {
+                kani::assume(hb[i] == b'a' || hb[i] == b'b');
+                i += 1;
+            }
+            i = 0;
+            while i < $m {
+                kani::assume(nb[i] == b'a' || nb[i] == b'b');
+                i += 1;
+            }
+            let hp = hb.as_mut_ptr();
+            let np = nb.as_mut_ptr();
+            let hay: [String; $n] = core::array::from_fn(|i| alias1(unsafe { hp.add(i) }));
+            let needle: [String; $m] = core::array::from_fn(|i| alias1(unsafe { np.add(i) }));
+            let start: usize = kani::any();
+            kani::assume(start <= $n + 1);
+            let got = find_subslice_from(&hay, &needle, start);
+            // reference: first index >= start whose window equals the needle
+            let mut want: Option<usize> = None;
+            let mut idx = 0usize;
+            while idx + $m <= $n {
+                if idx >= start && want.is_none() {
+                    let mut same = true;
+                    let mut k = 0;
+                    while k < $m {
+                        if hb[idx + k] != nb[k] {
+                            same = false;
+                        }
+                        k += 1;
+                    }
+                    if same {
+                        want = Some(idx);
+                    }
+                }
+                idx += 1;
+            }
+            assert!(got == want, "hunk context search is not the first match at or after the cursor");
+            kani::cover!(want.is_some() && want != Some(0), "match found after a skipped earlier position");
+            kani::cover!(want.is_none(), "context missing");
+            core::mem::forget(hay);
+            core::mem::forget(needle);
+        }
+    };
+}
+c12_find!(c12_find_h3_n1, 3, 1);
+c12_find!(c12_find_h3_n2, 3, 2);
+c12_find!(c12_find_h4_n2, 4, 2);
+
+fn stub_fmt_format_p(_args: core::fmt::Arguments<'_>) -> String {
+    String::new()
+}
+
+// C12(a): a one-line replacement hunk applied to a CONCRETE 2-line file (shape: LF / CRLF, trailing newline or not)
+// with SYMBOLIC context and replacement bytes over {a,b,c}: success iff the context line occurs, the FIRST occurrence
+// is replaced, every other byte of the file (line-ending style, trailing newline) is preserved.
+macro_rules! c12_hunk_replace {
+    ($name:ident, $text:expr, $eol:expr, $trail:expr) => {
+        #[kani::proof]
+        #[kani::unwind(12)]
+        #[kani::stub(std::fmt::format, stub_fmt_format_p)]
+        fn $name() {
+            let x: u8 = kani::any();
+            let y: u8 = kani::any();
+            kani::assume((x == b'a' || x == b'b' || x == b'c') && (y == b'a' || y == b'b' || y == b'c'));
+            let mut xb = [x];
+            let mut yb = [y];
+            let mut hunk = core::mem::ManuallyDrop::new([PatchHunk {
+                before: unsafe { Vec::from_raw_parts(&mut alias1(xb.as_mut_ptr()) as *mut String, 0, 0) },
+                after: Vec::new(),
+            }]);
+            // one-element before/after vectors backed by stack storage
+            let mut before_store = core::mem::ManuallyDrop::new([alias1(xb.as_mut_ptr())]);
+            let mut after_store = core::mem::ManuallyDrop::new([alias1(yb.as_mut_ptr())]);
+            hunk[0].before = unsafe { Vec::from_raw_parts(before_store.as_mut_ptr(), 1, 0) };
+            hunk[0].after = unsafe { Vec::from_raw_parts(after_store.as_mut_ptr(), 1, 0) };
+
+            let r = apply_hunks_to_text($text, &hunk[..], Path::new("f"));
+            // file lines are "a" then "b"
+            let eol: &[u8] = $eol;
+            match &r {
+                Ok(out) => {
+                    assert!(x == b'a' || x == b'b', "hunk applied although its context does not occur in the file");
+                    let l0 = if x == b'a' { y } else { b'a' };
+                    let l1 = if x == b'a' { b'b' } else { y };
+                    let ob = out.as_bytes();
+                    let want_len = 2 + eol.len() + if $trail { eol.len() } else { 0 };
+                    assert!(ob.len() == want_len, "updated text has the wrong length (line ending / trailing newline not preserved)");
+                    assert!(ob[0] == l0, "first line wrong after the update");
+                    let mut k = 0;
+                    while k < eol.len() {
+                        assert!(ob[1 + k] == eol[k], "line-ending style not preserved");
+                        k += 1;
+                    }
+                    assert!(ob[1 + eol.len()] == l1, "second line wrong after the update");
+                    if $trail {
+                        let mut k2 = 0;
+                        while k2 < eol.len() {
+                            assert!(ob[2 + eol.len() + k2] == eol[k2], "trailing newline not preserved");
+                            k2 += 1;
+                        }
+                    }
+                }
+                Err(_) => assert!(x == b'c', "hunk refused although its context occurs in the file"),
+            }
+            kani::cover!(r.is_ok() && x == b'b', "second line replaced");
+            kani::cover!(r.is_err(), "missing context refused");
+            core::mem::forget(r);
+        }
+    };
+}
+// (does not finish: out of memory / > 400 s even on concrete text) c12_hunk_replace!(c12_hunk_lf_trailing, "a\nb\n", b"\n", true);
+// (does not finish: out of memory / > 400 s even on concrete text) c12_hunk_replace!(c12_hunk_lf_notrailing, "a\nb", b"\n", false);
+// (does not finish: out of memory / > 400 s even on concrete text) c12_hunk_replace!(c12_hunk_crlf_trailing, "a\r\nb\r\n", b"\r\n", true);
